@@ -74,6 +74,24 @@ def check(ctx):
             ok = s <= allowed and 1 in s
             ctx.check(ok, "C14.a", key, "%s:%d" % (m.file, m.line), "trigger counts over all returning paths: %s" % sorted(s),
                       "%s::%s triggers %s times on some path (documented: exactly one trigger per call)" % (ty, name, sorted(s)))
+            # a failed access does not react: no error return is reachable from a trigger (the old code left through `?`
+            # before triggering; "trigger, then look the entity up" reacts for dead / component-less entities)
+            if m.local_ty(0).startswith(("core::result::Result<", "core::option::Option<")):
+                ev_ = E.events.get(m.path, {})
+                errs_ = [b for b, i, st in m.iter_stmts() if st["k"] == "assign" and st["place"]["l"] == 0 and "agg" in st["rv"] and st["rv"]["agg"].get("vname") in ("Err", "None")]
+                errs_ += [b for b, t, fr in m.iter_calls() if fr and lib.tail(mir.fn_name(fr), 1) == "from_residual"]
+                # ... nor a fallible lookup (its failure would be returned after the trigger)
+                for b, t, fr in m.iter_calls():
+                    if fr is None or b in ev_ or not m.local_ty(t["dest"]["l"]).startswith(("core::result::Result<", "core::option::Option<")):
+                        continue
+                    cb_ = prog.resolve_local(fr)
+                    if lib.tail(mir.fn_name(fr), 2) in ("Query::get_mut", "Query::get", "Query::get_single_mut", "Query::get_single", "Query::get_many_mut") \
+                            or (cb_ is not None and cb_.local_ty(0).startswith(("core::result::Result<", "core::option::Option<"))):
+                        errs_.append(b)
+                hit = [(e_, r_) for e_ in ev_ for r_ in errs_ if r_ in m.reach_from(e_) and r_ != e_]
+                ctx.check(not hit, "C14.a", "%s::%s:no-trigger-on-failed-access" % (ty, name), m.loc(hit[0][0]) if hit else "%s:%d" % (m.file, m.line),
+                          "no error return is reachable from a trigger", "%s::%s can trigger a reaction and then fail the access (returns Err/None): a reaction "
+                          "runs for an entity that was not accessed" % (ty, name))
             if s == {0, 1}:
                 # zero only on the error return
                 ev = E.events.get(m.path, {})
